@@ -10,8 +10,8 @@ FUNCTIONS_ENCODED = ["Node._receive_message (T-flag branch, origin bookkeeping)"
                      "Application.send_answer", "Node.route_answer"]
 ASSUMPTIONS = ["end-to-end ids from a 2-3 element pool (to force repeats), origin hosts from a 2-element pool; hop-by-hop ids distinct",
                "retransmit_queue_size is a concrete outer loop over 1..3 (a symbolic deque(maxlen=) is rejected by CrossHair)"]
-BOUNDS = {"quick": "window sizes 1..3; two earlier requests with symbolic (origin, end-to-end id), each answered by the application / answered by the node itself (3007) / left pending, answers in either order; then a third earlier request answered (eviction); then the probed request with symbolic origin, id and T flag",
-          "thorough": "four earlier requests"}
+BOUNDS = {"quick": "window sizes 1..3; two earlier requests with symbolic (origin, end-to-end id), each answered by the application / answered by the node itself (3007, or 5012 after the handler raised) / left pending, answers in either order; then (one configuration in the quick tier) a third earlier request answered (eviction); then the probed request with symbolic origin, id and T flag",
+          "thorough": "the third earlier request for every window size and first request; end-to-end ids from a 3-element pool"}
 OUTSIDE = ["12-request histories", "window size 4"]
 ORIGINS = ["origin-a.realm", "origin-b.realm"]
 E2E = [0x01000001, 2, 0xffffffff]
@@ -25,9 +25,9 @@ def window(o1: int, e1: int, h1: int, o2: int, e2: int, h2: int, order: bool, o3
     """
     pre: 0 <= o1 <= 1 and 0 <= o2 <= 1 and 0 <= o3 <= 1 and 0 <= op <= 1
     pre: 0 <= e1 < P["ne"] and 0 <= e2 < P["ne"] and 0 <= e3 < P["ne"] and 0 <= ep < P["ne"]
-    pre: o1 == P["o1"] and e1 == P["e1"] and 0 <= h1 <= 2 and 0 <= h2 <= 2 and 0 <= h3 <= 2
+    pre: o1 == P["o1"] and e1 == P["e1"] and 0 <= h1 <= 3 and 0 <= h2 <= 3 and 0 <= h3 <= 3
     pre: P["third"] or (o3 == 0 and e3 == 0 and h3 == 2)
-    pre: P["node_answers"] or (h1 != 1 and h2 != 1 and h3 != 1)
+    pre: P["node_answers"] or (h1 in (0, 2) and h2 in (0, 2) and h3 in (0, 2))
     pre: (h1 == 0 and h2 == 0) or not order
     post: _
     """
@@ -36,47 +36,55 @@ def window(o1: int, e1: int, h1: int, o2: int, e2: int, h2: int, order: bool, o3
     o1, e1 = P["o1"], P["e1"]
     o2, o3, op = (hx.concretize_range(x, 0, 2) for x in (o2, o3, op))
     e2, e3, ep = (hx.concretize_range(x, 0, P["ne"]) for x in (e2, e3, ep))
-    h1, h2, h3 = (hx.concretize_range(x, 0, 3) for x in (h1, h2, h3))     # 0 = application answers, 1 = node answers (3007), 2 = stays pending
+    # 0 = application answers, 1 = node answers (3007), 2 = stays pending, 3 = the handler raises and the node answers 5012 itself
+    h1, h2, h3 = (hx.concretize_range(x, 0, 4) for x in (h1, h2, h3))
     inputs = (o1, e1, h1, o2, e2, h2, order, o3, e3, h3, op, ep, t)
+    order, t = bool(hx.concretize(order)), bool(hx.concretize(t))
     try:
-        b = B.Bench(n_peers=1)
-        n, app = b.node, b.apps[0]
-        n.retransmit_queue_size = size
-        c, s = b.make_ready(b.peers[0])
-        win = {0: [], 1: []}
+        # all inputs are fixed above: the rest of the path runs natively
+        with hx.untraced():
+            b = B.Bench(n_peers=1)
+            n, app = b.node, b.apps[0]
+            n.retransmit_queue_size = size
+            c, s = b.make_ready(b.peers[0])
+            win = {0: [], 1: []}
 
-        def ref_answer(o, e):
-            win[o].append(e)
-            del win[o][:-size]
-        # two requests arrive; those handled by the node itself are answered at once
-        first = [(1, o1, e1, h1), (2, o2, e2, h2)]
-        pending_app = []
-        for (k, o, e, h) in first:
-            b.inject(c, _req(k, o, e, app=9 if h == 1 else 4))
-            if h == 1:
-                ref_answer(o, e)
-            elif h == 0:
-                pending_app.append((k, o, e, app.requests[-1]))
-        drain(c)
-        if order:
-            pending_app.reverse()
-        for (k, o, e, r) in pending_app:
-            app.send_answer(app.generate_answer(r, result_code=2001))
-            ref_answer(o, e)
-        drain(c)
-        if P["third"]:
-            b.inject(c, _req(3, o3, e3, app=9 if h3 == 1 else 4))
-            if h3 == 1:
-                ref_answer(o3, e3)
-            elif h3 == 0:
-                app.send_answer(app.generate_answer(app.requests[-1], result_code=2001))
-                ref_answer(o3, e3)
+            def ref_answer(o, e):
+                win[o].append(e)
+                del win[o][:-size]
+            # two requests arrive; those handled by the node itself are answered at once
+            first = [(1, o1, e1, h1), (2, o2, e2, h2)]
+            pending_app = []
+            for (k, o, e, h) in first:
+                app.raise_in_handler = h == 3
+                b.inject(c, _req(k, o, e, app=9 if h == 1 else 4))
+                app.raise_in_handler = False
+                if h in (1, 3):
+                    ref_answer(o, e)
+                elif h == 0:
+                    pending_app.append((k, o, e, app.requests[-1]))
             drain(c)
-        before = len(app.requests)
-        b.inject(c, _req(9, op, ep, t=bool(t)))
-        out = B.summarize(drain(c))
-        delivered = len(app.requests) - before
-        obs = (delivered, [(x[3], x[5]) for x in out])
+            if order:
+                pending_app.reverse()
+            for (k, o, e, r) in pending_app:
+                app.send_answer(app.generate_answer(r, result_code=2001))
+                ref_answer(o, e)
+            drain(c)
+            if P["third"]:
+                app.raise_in_handler = h3 == 3
+                b.inject(c, _req(3, o3, e3, app=9 if h3 == 1 else 4))
+                app.raise_in_handler = False
+                if h3 in (1, 3):
+                    ref_answer(o3, e3)
+                elif h3 == 0:
+                    app.send_answer(app.generate_answer(app.requests[-1], result_code=2001))
+                    ref_answer(o3, e3)
+                drain(c)
+            before = len(app.requests)
+            b.inject(c, _req(9, op, ep, t=bool(t)))
+            out = B.summarize(drain(c))
+            delivered = len(app.requests) - before
+            obs = (delivered, [(x[3], x[5]) for x in out])
     except Exception as e:
         return hx.fail(inputs, "raised %s: %s" % (type(e).__name__, str(e)[:80]))
     dup = bool(t) and (E2E[ep] in [E2E[x] for x in win[op]])
@@ -189,14 +197,15 @@ def specs(tier, seed, carve):
         for w0 in range(3):
             out.append(dict(id="window_step/size%d/w%d" % (size, w0), fn="window_step", params={"size": size, "w0": w0}, timeout=900,
                             bound="window of size %d constructed directly with every content from a 3-id pool, two further answered requests with symbolic ids (repeats included), then the probe with symbolic id and T flag" % size))
-    for size in ((1, 2) if q else (1, 2, 3)):
+    ne = 2 if q else 3
+    for size in (1, 2, 3):
         for o1 in (0, 1):
             for e1 in range(ne):
-                for third in ((False,) if q else (False, True)):
-                    if third and size == 3:
+                for third in (False, True):
+                    if q and third and (size, o1, e1) != (2, 0, 0):
                         continue
                     out.append(dict(id="window/size%d/o%d_e%d%s" % (size, o1, e1, "/third" if third else ""), fn="window",
-                                    params={"size": size, "o1": o1, "e1": e1, "ne": ne, "third": third, "node_answers": not q}, timeout=6000 if third else 900,
-                                    bound="window size %d; first request (origin %d, id %d); second%s request and the probed request fully symbolic over 2 origins x %d ids x T; each earlier request answered by the application%s or left pending; both answer orders" % (
-                                        size, o1, e1, " and third" if third else "", ne, "" if q else " / by the node (3007)")))
+                                    params={"size": size, "o1": o1, "e1": e1, "ne": ne, "third": third, "node_answers": True}, timeout=1500,
+                                    bound="window size %d; first request (origin %d, id %d); second%s request and the probed request fully symbolic over 2 origins x %d ids x T; each earlier request answered by the application / by the node (3007) / by the node after the handler raised (5012) or left pending; both answer orders" % (
+                                        size, o1, e1, " and third" if third else "", ne)))
     return out
